@@ -28,7 +28,7 @@ COMPONENTS = dict(real=["hio.core.memo.memoing.Memoer tx services (_serviceOnceT
 ASSUMPTIONS = ["partial acceptance of a datagram is generated because the statement quantifies over it (UDP itself is all-or-nothing)"]
 PROBES = ["would_block_on_fresh_gram", "remainder_left_when_queue_empty", "unreachable_drop", "partial_accept", "two_destinations", "bare_memoer", "uxd_peer", "reopen_with_remainder_pending"]
 BOUNDS = dict(quick=dict(memos=5, send_calls=400), thorough=dict(memos=8, send_calls=800))
-TIERS = dict(quick=dict(cases=20000, wall=40.0), thorough=dict(cases=2500000, wall=420.0))
+TIERS = dict(quick=dict(cases=50000, wall=60.0), thorough=dict(cases=2500000, wall=420.0))
 SIM_TIME_UNIT = "send calls"
 
 
